@@ -2066,6 +2066,11 @@ class QueryRewriter:
 
         where = select.args["where"].this
 
+        # Unqualified columns belong to the single FROM model, as they do in the SELECT list
+        inferred_table = getattr(self, "inferred_table", None)
+        if inferred_table and inferred_table != "metrics" and inferred_table in self.graph.models:
+            where = self._qualify_unaliased_columns(where, inferred_table)
+
         # Handle compound conditions (AND/OR)
         if isinstance(where, (exp.And, exp.Or)):
             return self._extract_compound_filters(where)
